@@ -105,6 +105,20 @@ func ConvertToJSONSupportedValue(t interface{}) JSONValue {
 		return v
 	case *bool:
 		return *v
+	case map[string]interface{}:
+		// containers are copied: an operation keeps the value it was executed with,
+		// whatever the caller does to its own map or slice afterwards
+		m := make(map[string]interface{}, len(v))
+		for k, e := range v {
+			m[k] = ConvertToJSONSupportedValue(e)
+		}
+		return m
+	case []interface{}:
+		l := make([]interface{}, len(v))
+		for i, e := range v {
+			l[i] = ConvertToJSONSupportedValue(e)
+		}
+		return l
 	default:
 	}
 	return t
